@@ -15,6 +15,13 @@ import dbtie
 ALPHA = csvtie.ALPHA + ["_none", "_tag_", "_field_", "t_", "f_", "tt", "ft", "_t", "é", " ", "\x1c", "\U0001F600"]
 KEY_HEADS = ["", "t", "f", "_", "t_", "f_", "_tag_", "_field_", "tf", "ft", "a", "_none", ",", '"', "\n"]
 SENTINEL_LIKE = ["\\x_none", "\\_none", "x_none", "_none_", "\\\\a_none", "_None", "__none", "\\", "\\\\", "_none\\", "\\n_none", "none", "_non"]
+def _us(y, mo, d, h=0, mi=0, s=0, us=0):
+    from datetime import datetime, timezone, timedelta
+    return (datetime(y, mo, d, h, mi, s, us, tzinfo=timezone.utc) - datetime(1970, 1, 1, tzinfo=timezone.utc)) // timedelta(microseconds=1)
+
+
+FAR_INSTANTS = [_us(1, 1, 2), _us(1, 6, 15, 12, 0, 0, 123456), _us(999, 12, 31, 23, 59, 59, 999999), _us(1000, 1, 1), _us(1582, 10, 10),
+                _us(2999, 2, 28, 1, 2, 3, 4), _us(9999, 12, 30, 23, 59, 59, 999999)]
 EDGE = SENTINEL_LIKE + [" x", "x ", " ", "  ", "\tx", "x\t", '"', '""', "'", "''", 'a"b', "\r", "\n", "\r\n", "x\ny", ",", ";", "|", "\\", "\\n", "#x", "\ufeffx", "=1+1",
         "_none ", " _none", "0", "-1", "1e5", "nan", "inf", "None", "t_x", "f_x", "_tag_x", "_field_x", "t", "f", "_", "é ", " \U0001F600"]
 DIALECTS = [dict(), dict(), dict(delimiter=";"), dict(delimiter="\t", quotechar="'"), dict(quoting=csv.QUOTE_ALL), dict(delimiter="|", quotechar="'", quoting=csv.QUOTE_ALL),
@@ -193,6 +200,10 @@ def main(tier, seed):
                 pts.append({"time": dbgen.T0 + j * 1000000, "meas": e[0] if j % 2 == 0 else "m",
                             "tags": dict(sorted({"k": e[0], e[-1]: e[1 % len(e)], "t_" + e[0]: "v"}.items())),
                             "fields": dict(sorted({e[-1]: 1.5, "f_" + e[0]: None, "n": j}.items()))})
+        if i < len(DIALECTS):
+            # instants far outside the 1700-2240 range of the ordering property: the text form of the time must still round-trip
+            for j, us in enumerate(FAR_INSTANTS):
+                pts.append({"time": us, "meas": "far", "tags": {"y": str(j)}, "fields": {"n": j}})
         pts = dbtie.sanitize_for(kw, pts)          # known finding F32: the other line-break character under a one-character lineterminator
         d = ck.work / f"file{i}"
         d.mkdir()
@@ -215,7 +226,18 @@ def main(tier, seed):
         try:
             db2 = tf.TinyFlux(path, **kw)
             try:
-                got = [M.canon_point(q) for q in db2.all(sorted=False)]
+                first = db2.all(sorted=False)
+                got = [M.canon_point(q) for q in first]
+                # what a caller does with returned points is the caller's business: editing them in place must not show in a later read
+                for q in first:
+                    q.tags["edited-by-caller"] = "x"
+                    q.tags.pop(next(iter(q.tags)), None)
+                    q.fields["edited-by-caller"] = -1.0
+                again = [M.canon_point(q) for q in db2.all(sorted=False)]
+                if not isinstance(got, tuple) and again != got and len(direct_bad) < 4:
+                    direct_bad.append({"kind": "failing-input", "why": "points returned by a read were edited in place by the caller; a later read of the same database "
+                                       "returns the edits instead of what the file holds", "csv_kwargs": {k: str(v) for k, v in kw.items()}, "points": pts,
+                                       "first_read": got, "second_read": again})
             finally:
                 db2.close()
         except Exception as e:  # noqa
@@ -226,6 +248,37 @@ def main(tier, seed):
         if not ok and len(direct_bad) < 4:
             direct_bad.append({"kind": "failing-input", "why": "points written to a CSV database and read back after reopening differ", "csv_kwargs": {k: str(v) for k, v in kw.items()},
                                "points": pts, "read_back": got, "read_on_the_live_object_after_a_rewrite": got_live})
+    # (3b) the same round trip with the PROCESS in another time zone (the file holds UTC wall-clock text; nothing may depend on the local zone)
+    import time as _time
+    old_tz = os.environ.get("TZ")
+    try:
+        for tzname in ("America/Los_Angeles", "Asia/Kathmandu", "Australia/Lord_Howe"):
+            os.environ["TZ"] = tzname
+            _time.tzset()
+            d = ck.work / f"tz{file_runs}"
+            d.mkdir()
+            path = str(d / "db.csv")
+            pts = [rpoint(rng, reserved_ok=False) for _ in range(4)] + [{"time": _us(2021, 11, 7, 8, 30), "meas": "fold", "tags": {}, "fields": {"n": 1}},
+                                                                        {"time": _us(2021, 3, 14, 10, 30), "meas": "gap", "tags": {}, "fields": {"n": 2}}]
+            db = tf.TinyFlux(path)
+            for p in pts:
+                db.insert(M.real_point(tf, p), compact_key_prefixes=rng.random() < 0.5)
+            live = [M.canon_point(q) for q in db.all(sorted=False)]
+            db.close()
+            db2 = tf.TinyFlux(path)
+            got = [M.canon_point(q) for q in db2.all(sorted=False)]
+            db2.close()
+            file_runs += 1
+            same = lambda g: len(g) == len(pts) and all(py_equal(a, x) for a, x in zip(pts, g))
+            if not (same(got) and same(live)) and len(direct_bad) < 4:
+                direct_bad.append({"kind": "failing-input", "why": f"with the process in time zone {tzname}, points written to a CSV database and read back differ",
+                                   "TZ": tzname, "points": pts, "read_back": got, "read_on_the_live_object": live})
+    finally:
+        if old_tz is None:
+            os.environ.pop("TZ", None)
+        else:
+            os.environ["TZ"] = old_tz
+        _time.tzset()
     # (4) several CSV databases with DIFFERENT csv options open at the same time, written alternately: the options belong to the database
     for a_kw, b_kw in ((DIALECTS[0], DIALECTS[2]), (DIALECTS[3], DIALECTS[0]), (DIALECTS[5], DIALECTS[2])):
         d = ck.work / f"pair{file_runs}"
